@@ -159,7 +159,10 @@ def check_formats(ctx, rule, funcs, scope_note=''):
               nv = prog.const_eval(n, f.module, f.cls)
             except ValueError:
               nv = None
-            if nv is None:
+            if nv is None and isinstance(n, ast.Attribute) and n.attr == 'size' and isinstance(s.call.func, ast.Attribute) and U(n.value) == U(s.call.func.value):
+              # <Struct>.unpack(read(<the same Struct>.size)): the size of the very format that is unpacked
+              ctx.ob(rule, f, desc + ' read-size', True, '', 'unpack needs exactly calcsize(format) bytes', nontrivial=False)
+            elif nv is None:
               # symbolic size such as 4 * num_to_read: compare linear forms
               ctx.ob(rule, f, desc + ' read-size', False, 'read size %s is not constant for a fixed format' % U(n),
                      'unpack needs exactly calcsize(format) bytes')
